@@ -177,11 +177,24 @@ def localized_names(seed, quick):
             kind, val = list(ms)[0]
             # single-meaning month names only; a name that is also an English month name is read by the raw-string
             # format match (which the property says wins); names of the open C05 finding have the same root cause
-            if kind == "month" and name.isalpha() and len(name) > 2 and name not in english and (lang, name) not in known:
+            if kind == "month" and _wordlike(name) and len(name) > 2 and name not in english and (lang, name) not in known:
                 out.append((lang, val, name))
     if quick:
         out = [out[(seed * 11 + 13 * j) % len(out)] for j in range(8)] if out else []
+        # in every run: names spelled with a format character (ZWNJ/ZWJ), in whatever language
+        import unicodedata
+        for lang in [l for l in order if l != "en"]:
+            for name, ms in sorted(C.meanings(C.combined_info(lang)).items()):
+                if len(ms) == 1 and list(ms)[0][0] == "month" and _wordlike(name) and (lang, name) not in known \
+                        and any(unicodedata.category(ch) == "Cf" for ch in name) and (lang, list(ms)[0][1], name) not in out:
+                    out.append((lang, list(ms)[0][1], name))
     return out
+
+
+def _wordlike(name):
+    """letters, combining marks and format characters only (no spaces, digits or punctuation)"""
+    import unicodedata
+    return all(unicodedata.category(ch)[0] in "LM" or unicodedata.category(ch) == "Cf" for ch in name)
 
 
 def tasks(tier, seed):
